@@ -1,0 +1,120 @@
+/*
+ * Copyright 2024 Database Group, Nagoya University
+ *
+ * Licensed under the Apache License, Version 2.0 (the "License");
+ * you may not use this file except in compliance with the License.
+ * You may obtain a copy of the License at
+ *
+ *     http://www.apache.org/licenses/LICENSE-2.0
+ *
+ * Unless required by applicable law or agreed to in writing, software
+ * distributed under the License is distributed on an "AS IS" BASIS,
+ * WITHOUT WARRANTIES OR CONDITIONS OF ANY KIND, either express or implied.
+ * See the License for the specific language governing permissions and
+ * limitations under the License.
+ */
+
+#ifndef CPP_UTILITY_DBGROUP_VERIF_HOOKS_HPP_
+#define CPP_UTILITY_DBGROUP_VERIF_HOOKS_HPP_
+
+/*
+ * Verification hooks (runtime monitoring). Everything in this file is inert
+ * unless DBGROUP_CPP_UTILITY_VERIF is defined: the macros expand to nothing
+ * (or to their argument) and no symbol is referenced. With the guard on, the
+ * program that links this library must define the three functions below.
+ */
+
+#ifdef DBGROUP_CPP_UTILITY_VERIF
+
+// C++ standard libraries
+#include <cstddef>
+
+namespace dbgroup::verif
+{
+/// @brief IDs of the instrumented points (legal preemption points only).
+enum PointID : int {
+  // PessimisticLock / OptimisticLock: between the admission load and the CAS
+  kAdmitS = 1,
+  kAdmitSIX = 2,
+  kAdmitX = 3,
+  kAdmitUpgrade = 4,
+  kAdmitTryS = 5,
+  kAdmitTrySIX = 6,
+  kAdmitTryX = 7,
+  kPrepareOptimistic = 8,
+  kPrepareFallback = 9,
+  kVerifyLoaded = 10,
+  kGetVersionLoaded = 11,
+
+  // MCSLock
+  kMcsNodeTaken = 20,       // a queue node was taken from the cache / allocated
+  kMcsNodeRecycle = 21,     // a queue node is about to be put back into the cache
+  kMcsSBeforeCas = 22,      // LockS: between reading the lock word and the CAS
+  kMcsSJoined = 23,         // LockS: joined an existing group (arrival of a waiting S)
+  kMcsSNewGroup = 24,       // LockS: opened a new group on a free lock
+  kMcsSWaitNext = 25,       // LockS: tail moved, going to look at the successor
+  kMcsXExchanged = 26,      // LockX/LockSIX: after the tail exchange (arrival)
+  kMcsXFlagsStored = 27,    // LockX/LockSIX: inherited flags stored, before linking
+  kMcsXLinked = 28,         // LockX/LockSIX: linked behind the predecessor
+  kMcsUnlockTailPath = 29,  // Unlock*: no successor seen, before the CAS on the lock word
+  kMcsUnlockWaitLink = 30,  // Unlock*: tail moved, waiting for the successor's link
+  kMcsUnlockHandOff = 31,   // Unlock*: before the RMW on the successor node
+  kMcsConvTailPath = 32,    // Upgrade/Downgrade: before the CAS on the lock word
+  kMcsConvHandOff = 33,     // Upgrade/Downgrade: before the RMW on the successor node
+  kMcsUpgradeDrained = 34,  // UpgradeToX: shared holders of the previous group drained
+
+  // IDManager
+  kIdProbe = 40,       // before probing the next slot
+  kIdClaimed = 41,     // after a slot was claimed
+  kIdExitBegin = 42,   // ~HeartBeater: begin
+  kIdExitMiddle = 43,  // ~HeartBeater: between its two steps
+  kIdExitEnd = 44,     // ~HeartBeater: end of the destructor body
+
+  // Epoch / EpochManager
+  kEpochEnterGap = 50,        // EnterEpoch: global epoch read, not yet published
+  kEpochEntered = 51,         // EnterEpoch: published
+  kEpochGuardCreated = 52,    // GetProtectedEpochs: guard created, before the lookup
+  kEpochLookupStep = 53,      // ProtectedNode::GetProtectedEpochs: one traversal step
+  kEpochForwardBegin = 54,    // ForwardGlobalEpoch: begin
+  kEpochForwardCollected = 55,  // ForwardGlobalEpoch: list built, before retiring nodes
+  kEpochForwardRetired = 56,  // ForwardGlobalEpoch: nodes retired, before publishing
+  kEpochForwardEnd = 57,      // ForwardGlobalEpoch: published
+  kEpochBindHeartbeat = 58,   // CreateEpochGuard: about to (re)bind the heartbeat
+};
+
+/// @brief A scheduling point: called between two atomic steps of one operation.
+void Point(int id, const void *obj) noexcept;
+
+/// @brief Let the monitor choose the first probed slot of IDManager.
+auto ProbeStart(std::size_t dflt, std::size_t cap) noexcept -> std::size_t;
+
+/// @brief Fires `Point` when the enclosing scope is left (after `return expr`).
+class ScopeExitPoint
+{
+ public:
+  ScopeExitPoint(int id, const void *obj) noexcept : id_{id}, obj_{obj} {}
+  ScopeExitPoint(const ScopeExitPoint &) = delete;
+  auto operator=(const ScopeExitPoint &) -> ScopeExitPoint & = delete;
+  ~ScopeExitPoint() { Point(id_, obj_); }
+
+ private:
+  int id_;
+  const void *obj_;
+};
+
+}  // namespace dbgroup::verif
+
+#define DBGROUP_VERIF_POINT(id, obj) ::dbgroup::verif::Point(::dbgroup::verif::id, (obj))
+#define DBGROUP_VERIF_POINT_AT_EXIT(id, obj) \
+  const ::dbgroup::verif::ScopeExitPoint dbgroup_verif_scope_exit_ { ::dbgroup::verif::id, (obj) }
+#define DBGROUP_VERIF_PROBE_START(dflt, cap) ::dbgroup::verif::ProbeStart((dflt), (cap))
+
+#else
+
+#define DBGROUP_VERIF_POINT(id, obj) ((void)0)
+#define DBGROUP_VERIF_POINT_AT_EXIT(id, obj) ((void)0)
+#define DBGROUP_VERIF_PROBE_START(dflt, cap) (dflt)
+
+#endif  // DBGROUP_CPP_UTILITY_VERIF
+
+#endif  // CPP_UTILITY_DBGROUP_VERIF_HOOKS_HPP_
